@@ -358,3 +358,29 @@ def _check_state_ctor(check, ff: FuncFlow, fi: FuncInfo, oc: sk.OptCall, rule: s
           check.ob(rule + '.state-ctor', fi, txt(y)[:80], ok_p and ok_o,
                    f'{r.cls.name} fields are {fields}: `params` must receive the optimizer\'s new params and '
                    f'`opt_state` its new state', node=y, advisory=advisory)
+
+
+def check_no_client_filter(check, repo: Repo, fi: FuncInfo, clients_param: str, rule: str = 'R-YIELD1.filter'):
+  """Every client handed to the round takes part in it: no comprehension or generator over the clients argument (or over something
+  built only from it) carries an `if` clause, and no loop over it skips iterations with `continue` before the client is used. A
+  filtered cohort silently loses clients (no diagnostics entry, no state entry, a different weight total)."""
+  ff = FuncFlow.of(repo, fi)
+  n = 0
+  for nd in ff.cfg.nodes:
+    if nd.ast is None:
+      continue
+    for x in nd.walk():
+      if not isinstance(x, (ast.ListComp, ast.SetComp, ast.DictComp, ast.GeneratorExp)):
+        continue
+      for g in x.generators:
+        src = g.iter
+        if isinstance(src, ast.Call) and txt(src.func) in ('enumerate', 'zip', 'list', 'tuple', 'iter', 'sorted') and src.args:
+          src = src.args[0]
+        if ff.param_of(src) != clients_param:
+          continue
+        n += 1
+        check.ob(rule, fi, f'for ... in {clients_param}' + (f' if {txt(g.ifs[0])[:50]}' if g.ifs else ''), not g.ifs,
+                 'the cohort is passed on whole: a filtered comprehension drops clients from the round (their diagnostics / state / weight)',
+                 node=x, exact=True)
+  return n
+
